@@ -7,6 +7,7 @@ class C03(core.Prop):
     drivers = [timing.DRIVER]
     sizes = {"quick": 1500, "thorough": 60000}
     max_workers = 6
+    ready = True
     technique = ("property-based testing (Hypothesis): generated timed programs run on the real kernel; every date of the log is compared "
                  "with the date arithmetic of the statement (closed forms, exact equality on dyadic dates)")
     rule = ("Programs of 1-5 actors x <=8 operations on a sharing-free platform: sleep_for / sleep_until, execs (with and without time-out), "
@@ -23,7 +24,8 @@ class C03(core.Prop):
                    "events carried by model actions (sleeps, semaphore/condvar/join time-outs) may complete up to precision/timing (1e-9 s) early when "
                    "ANOTHER actor's event occurs in that window (documented: 'epsilon used to update and compare timings'); accepted only in that case",
                    "several kill times: the last one set in the future wins (semantics of the fix 6bf89374c4)",
-                   "default configuration (lazy updates, contexts/nthreads 1)"]
+                   "sequential contexts; lazy model updates (default) and, for 1 program in 6, cpu/optim:Full + network/optim:Full, where the slack for "
+                   "dates off the grid is 1 ulp per time advance (remaining durations are decremented at every step)"]
 
     def strategy(self, tier):
         return timing.c03_programs()
